@@ -49,6 +49,7 @@ ASSUMPTIONS = [
 ]
 MINIMUMS = {"monitor:exit-once": 3000, "monitor:cleanup-surfaces": 1000, "monitor:enter-error-surfaces": 200, "cases_with_exit_error": 1000, "cases_with_enter_error": 300, "body_cancelled": 200, "cancelled_while_entering_with_some_entered": 50}
 JOBS = {"quick": 4, "thorough": 16}
+OPTIMIZED_SHARDS = {"quick": 2, "thorough": 8}  # the same cases once more under `python -O`
 LEVEL_TEXT = (
     "The full product enter{ok,gate,raise,gate-raise} x exit{ok,gate,raise,gate-raise} per disposable x body{return,raise,cancelled} is enumerated for up to 2 (quick) / 3 (thorough) "
     "disposables, each with every completion order of the suspended enters/exits (DFS), plus a seeded sample with 3-4 disposables; every execution's call log is checked for "
